@@ -1129,6 +1129,8 @@ def content_oracle(run):
         structural = d.startswith(("missing:", "duplicate:", "unspecified-method:"))
         template_like = structural or d in ("default-positive", "only-required") or d.startswith(("required-and-optional:", "required-and-n:"))
         varied_kind, varied_label, varied_index, generated = None, None, 0, False
+        if d == "only-required" or d.startswith(("required-and-optional:", "required-and-n:")):
+            varied_kind = KIND_OF.get(c["parameter_location"] or "")     # the container with_container replaced
         if not template_like:
             seen_values += 1
             if seen_values <= budget:
